@@ -189,5 +189,29 @@ CLAIMS = {
        "bookkeeping is emulated. Layers with the opaque marker on the layer root are outside the stack comparison. Not modelled: hard links, a real entry named .stargz-snapshotter, "
        "concurrent Readdir/Lookup, the choice of opaque mode in service.go. Trusted: TLC, the projection in harness/fs/layer/verif_node.go.",
   technique="TLA+ specs + TLC exhaustive check with negative controls; edge-cover and exhaustive short-sequence replay into Go on both metadata stores; TLC trace validation + property monitor; TLC evaluation of OverlayMerge on recorded served trees"),
+ "C05": dict(
+  text="Toc.tla defines a TLC-enumerated space of small spec-conforming TOCs (paths with ./ ../ and trailing-slash spellings, all entry types, chunk layouts incl. inner-offset and "
+       "shared streams, digest profiles, empty-valued xattrs, repeated directory entries, directory entries after their children, hard links before their target and link-to-link, "
+       "trailing whitespace after the TOC JSON) and the REFERENCE SEMANTICS as operators (tree, node identity, attributes, link counts, chunk table and ChunkEntryForOffset for every "
+       "offset, bytes, GetOffset, accept/reject, TOC digest); TLC checks the reference's sanity invariants with negative controls. Binding (3-way differential): every enumerated TOC is "
+       "materialised as a real blob, opened by memory.NewReader and db.NewReader (cmd module), the complete metadata.Reader API is walked and recorded per store; TocTrace validates each "
+       "store's record against the reference and TocMonitor evaluates StoresAgree (accept, digest, tree, attrs, links, chunks, bytes, offsets, clone) on the two records; layers opened "
+       "concurrently in one bolt DB under -race are compared with their solo records. Ten genuine differences/defects were found and fixed; one is listed as known.",
+  design_ref="DESIGN.md 3 (C05), 2.4, 2.5, 7 items 8-9",
+  note="Bounded: <=3 entries (4 thorough) over 6 paths; hand-made payload streams; builder-made blobs and the zstd / external-TOC formats are exercised by C02/C03, not here; "
+       "GetAttr(root) before the db parser finishes is timing dependent and not recorded; the one-database stage is decided by the monitor only. Trusted: TLC, the blob concretiser and walk in harness/metadata.",
+  technique="TLA+ reference semantics + TLC enumeration with negative controls; 3-way differential replay (reference / memory store / db store) on real blobs; TLC trace validation + StoresAgree monitor; concurrent one-DB runs under -race"),
+ "C04": dict(
+  text="TocHostile.tla and Footer.tla define a structured adversarial input space that TLC enumerates: hostile TOCs of <=3 entries (4 thorough) with all types plus an unknown one, "
+       "hard-link cycles, links to directories and to the own parent, duplicate/empty/dot names, one entry with deviating numbers from {-1,0,1,S,P,2^62} or empty/malformed digests; 327 footer "
+       "cases (four footer kinds x blob-length classes x field mutations x offsets x WithTOCOffset); 267 hostile tars for the builder; the reference says which outcomes are allowed (ok or "
+       "error; plain TOCs and valid footers must be accepted, short blobs rejected). Binding: every case is concretised to real bytes and driven IN CHILD PROCESSES (per-case deadline, 64 MiB "
+       "stack, address-space cap; a dying or silent child is attributed to the case in flight and re-run alone) through estargz.Open + walk/read/verify, the four ParseFooter, OpenFooter, "
+       "Build, memory.NewReader and db.NewReader + full metadata.Reader walk, VerifiableReader.Cache and fs/reader ReadAt; the monitor formula NoCrashNoHang decides on the recorded outcomes "
+       "(ok | error | panic | fatal | timeout). All crashes known from DESIGN 7 item 2 were re-found by the check; 15 defects fixed, two listed as known (whole-chunk buffers sized from the TOC).",
+  design_ref="DESIGN.md 3 (C04), 2.5, 7 item 2",
+  note="Only the structured space within the stated bounds - not unstructured byte fuzzing; registry replies (Content-Range / multipart) and the FUSE node layer are not covered; in quick the db "
+       "store runs a seeded subset of the 3-entry structures; compressed-stream internals are the decoders' business. Trusted: TLC, the concretiser, the child-process runner.",
+  technique="TLA+ structured input-space model + TLC enumeration; every case replayed through the real parsers/stores in crash-isolated child processes; TLC conformance to the allowed-outcome reference + NoCrashNoHang monitor"),
 }
 NOT_APPLICABLE = {}
